@@ -361,19 +361,25 @@ class Alarm(Exception):
 
 
 def with_alarm(seconds, fn, *a, **k):
-    """run fn under a wall-clock alarm (some dfols configurations never terminate)."""
+    """run fn under an alarm (some dfols configurations never terminate).  The budget is CPU time of this process
+    (ITIMER_PROF), so that a loaded machine does not turn a slow run into a 'non-termination'; a wall-clock backstop
+    of 20x the budget guards against a blocked process."""
     import signal
 
     def h(_s, _f):
         raise Alarm()
 
-    old = signal.signal(signal.SIGALRM, h)
-    signal.setitimer(signal.ITIMER_REAL, seconds)
+    old_p = signal.signal(signal.SIGPROF, h)
+    old_r = signal.signal(signal.SIGALRM, h)
+    signal.setitimer(signal.ITIMER_PROF, seconds)
+    signal.setitimer(signal.ITIMER_REAL, 20.0 * seconds)
     try:
         return fn(*a, **k)
     finally:
+        signal.setitimer(signal.ITIMER_PROF, 0)
         signal.setitimer(signal.ITIMER_REAL, 0)
-        signal.signal(signal.SIGALRM, old)
+        signal.signal(signal.SIGPROF, old_p)
+        signal.signal(signal.SIGALRM, old_r)
 
 
 def leanchecker(ctx, module):
